@@ -787,7 +787,13 @@ MANIFEST_ENTRY = {
              'products (any depth), and between real media |r|^2 + (n_e cos th_e/n_0 cos th_0)|t|^2 <= 1, both polarisations. '
              'Also exercised on the real code: defaults omitted, degrees / deg flags, upper-case polarisation and rejection of an unknown one, '
              'config.precision = 32, fresnel_* on angle arrays and complex indices, layers up to 1000 um, angles to 0.1 % below critical and 89.9 deg. '
-             'CORRESPONDENCE ONLY: batched (1-D/N-D, real and absorbing) = per-element loop; independence of call history (the same caller-owned ndarray '
+             '(7) frustrated total internal reflection: with ANY subset of the lossless layers evanescent (cos th_j = i kappa, sin b = i sinh, cos b = cosh) between '
+             'propagating real media, |r|^2 + (n_e cos th_e/n_0 cos th_0)|t|^2 = 1, any depth, both polarisations (energy_conservation_ftir). (8) batched = per-element loop: the '
+             'reshape((nlayers,-1)) / moveaxis / [:, i] / reshape(stack.shape[2:]) plumbing is TRANSLATED as index maps (stack.batch) and PROVED, for every batch shape of every rank, to hand '
+             'each per-element computation exactly the stack found at that multi-index and to put its result back there (unravel_ravel, batched_eq_loop, batched_exit_medium); trusted there: NumPy '
+             'arithmetic / matmul act element-wise along the batch axis (exercised by the batch correspondence, incl. batches where only some elements have an evanescent gap, and by the '
+             'index-map correspondence ravel / unravel vs NumPy). '
+             'CORRESPONDENCE ONLY: element-wise action along the batch axis (batched 1-D/N-D, real and absorbing = per-element loop); independence of call history (the same caller-owned ndarray '
              'evaluated repeatedly - s/p/s, two wavelengths, batched then element views - equals calls on fresh copies and is left unchanged).'),
     'note': ('Trusted: Lean kernel + standard axioms; the ast->Lean translator for the arithmetic subset; NumPy matmul / '
              'broadcasting / complex arcsin, sin, cos; IEEE rounding (no theorem speaks about it). cos/sin of the angles and of beta, '
